@@ -93,9 +93,12 @@ def setup_cases(tier, seed):
     decl_pool = [["single"], ["count", 1], ["count", 2], ["count", 3], ["count", 5], ["range", 0, 0], ["range", 0, 1], ["range", 5, 6],
                  ["range", 2, 4], ["range", 7, 7], ["range", 10, 13], ["count", 0]]
     out = []
-    n = 60 if tier == "quick" else 1500
+    n = 120 if tier == "quick" else 1500
     for i in range(n):
         mdecls = [rng.choice(decl_pool[:-1]) for _ in range(rng.randint(1, 3))]
+        if i % 3 == 0:
+            # a listed group that declares a count, followed by listed groups that may extend it
+            mdecls = [["count", rng.choice([2, 3, 5])]] + [rng.choice(decl_pool[:-1]) for _ in range(rng.randint(1, 2))]
         adecls = [rng.choice(decl_pool) for _ in range(rng.randint(1, 3))]
         use_prefix = rng.random() < 0.3
         use_extends = rng.random() < 0.3
@@ -105,11 +108,23 @@ def setup_cases(tier, seed):
             cfg["BaseM"] = {"class": "Market", "tickSize": 1.0, "marketPrice": 100.0, "from": 90, "to": 95}
             cfg["BaseA"] = {"class": "_A", "cashAmount": 100, "assetVolume": 1}
         lists = []
+        chain = (i % 3 == 0) or rng.random() < 0.2   # later groups extend the FIRST listed group (a listed group as parent)
+        if i % 3 == 0:
+            use_extends = False
+        eff = list(mdecls)
         for g, d in enumerate(mdecls):
             nm = "MG%d" % g
             s = {"extends": "BaseM"} if use_extends else {"class": "Market", "tickSize": 1.0, "marketPrice": 100.0}
-            s.update(_decl_settings(d, "numMarkets"))
-            if use_prefix and rng.random() < 0.5:
+            if chain and g > 0 and d[0] != "range":
+                # the child inherits everything but from / to; a declared count of its own overrides the parent's
+                s = {"extends": "MG0"}
+                if d[0] == "count":
+                    s.update(_decl_settings(d, "numMarkets"))
+                elif mdecls[0][0] == "count":
+                    eff[g] = mdecls[0]            # no declaration of its own: the parent's count is inherited
+            else:
+                s.update(_decl_settings(d, "numMarkets"))
+            if use_prefix and rng.random() < 0.5 and not (chain and g == 0):
                 s["prefix"] = "pm%d_" % g
             cfg[nm] = s
             cfg["simulation"]["markets"].append(nm)
@@ -124,6 +139,7 @@ def setup_cases(tier, seed):
             cfg["simulation"]["agents"].append(nm)
         for kind, decls, groups in (("markets", mdecls, "markets_group_name2market"), ("agents", adecls, "agents_group_name2agent")):
             pass
+        mdecls = eff
         case_m = {"c": "setup", "what": "markets", "decls": mdecls, "out": "ok", "ids": [], "names": []}
         case_a = {"c": "setup", "what": "agents", "decls": adecls, "out": "ok", "ids": [], "names": []}
         case_x = {"c": "access", "lists": lists, "acc": [], "mids": []}
